@@ -372,7 +372,7 @@ class WorldGen:
             # type (size `off`, alignment `A`) for the types that embed it.  A correct pyxis rejects the
             # world; one that has lost the check accepts it and the layout oracles see the difference.
             miss = None
-            if rng.random() < o.p_nearmiss:
+            if rng.random() < o.p_nearmiss * (3.0 if nregions == 1 else 1.0):      # one-region types are rare and have rules of their own
                 kinds = []
                 if pad: kinds.append('size-not-multiple')
                 if maxal > ps and nregions != 1: kinds.append('no-align-attr')
